@@ -79,7 +79,13 @@ func (h c06Hist) lean(fuel int) []interface{} {
 		sl = append(sl, []interface{}{c06Ints(s.Atoms), s.Cap})
 	}
 	ops := []interface{}{}
+	clone := c06Clones(h)
 	for _, o := range h.Ops {
+		if o.Name == "debug" {
+			// Debug() = getInstance() + Session(&Session{Logger}): on a chain instance it is Session, on a
+			// clone-2 handle it clones the statement (= WithContext), on a clone-1 handle it starts empty (= Begin)
+			o.Name = []string{"session", "begin", "ctx"}[clone[o.Src]]
+		}
 		ops = append(ops, o.lean())
 	}
 	return []interface{}{"c06.run", fuel, sl, ops}
@@ -593,6 +599,10 @@ func (g *c06Gen) step() {
 		switch name {
 		case "newdb":
 			cl = 1
+		case "debug":
+			if g.clone[s] == 1 {
+				w, rn = nil, 0
+			}
 		case "begin":
 			g.begins++
 			if g.clone[s] == 1 {
@@ -849,9 +859,14 @@ func c06Shapes(h c06Hist) c06Shape {
 		switch o.Name {
 		case "skip":
 			cl, w, rn = 1, nil, 0
-		case "session", "debug", "ctx":
+		case "session", "ctx":
 			cl = 2
 			if s < len(clone) {
+				w, rn = append([]int(nil), sh.where[s]...), sh.ret[s]
+			}
+		case "debug":
+			cl = 2
+			if s < len(clone) && clone[s] != 1 {
 				w, rn = append([]int(nil), sh.where[s]...), sh.ret[s]
 			}
 		case "newdb":
@@ -883,6 +898,30 @@ func c06Shapes(h c06Hist) c06Shape {
 		sh.reusable = append(sh.reusable, cl > 0)
 	}
 	return sh
+}
+
+func c06Clones(h c06Hist) []int {
+	clone := []int{1}
+	for _, o := range h.Ops {
+		cl := 0
+		src := 1
+		if o.Src < len(clone) {
+			src = clone[o.Src]
+		}
+		switch o.Name {
+		case "skip", "newdb":
+			cl = 1
+		case "session", "debug", "ctx":
+			cl = 2
+		case "begin":
+			cl = 2
+			if src == 1 {
+				cl = 1
+			}
+		}
+		clone = append(clone, cl)
+	}
+	return clone
 }
 
 // c06Patterns: which listed shapes occur in the history
@@ -1172,7 +1211,7 @@ func c06Stats(r *Result, h c06Hist, full map[int]c06Out) (nontrivial bool) {
 func init() {
 	register("C06", func(r *Result, rng *rand.Rand, tier string) {
 		r.Rule = "histories with >= 2 chains started from one shared handle and >= 2 renderings; distinct = canonical op list"
-		rounds, maxOps := 700, 14
+		rounds, maxOps := 3000, 14
 		if tier == "thorough" {
 			rounds, maxOps = 40000, 30
 		} else if tier == "search" {
